@@ -382,7 +382,7 @@ func guardsOf(body *ast.BlockStmt, target ast.Node) (gi guardInfo, found bool) {
 	var walkList func(list []ast.Stmt) bool
 	var walkStmt func(s ast.Stmt) bool
 	contains := func(n ast.Node) bool {
-		return n != nil && n.Pos() <= target.Pos() && target.End() <= n.End()
+		return n != nil && containsNode(n, target)
 	}
 	walkList = func(list []ast.Stmt) bool {
 		for i, s := range list {
@@ -478,22 +478,54 @@ func findCalls(p *packages.Package, body ast.Node, pred func(types.Object) bool)
 
 // enclosingStmt finds the innermost statement of body that contains n.
 func enclosingStmt(body *ast.BlockStmt, n ast.Node) ast.Stmt {
+	// by structure, not by position: the loader reorders the operands of comparisons in place, so Pos()/End() of
+	// an expression no longer bracket its parts
 	var best ast.Stmt
+	var stack []ast.Node
+	done := false
 	ast.Inspect(body, func(m ast.Node) bool {
+		if done {
+			return false
+		}
 		if m == nil {
+			stack = stack[:len(stack)-1]
 			return false
 		}
-		if m.Pos() > n.Pos() || n.End() > m.End() {
-			return false
-		}
-		if s, ok := m.(ast.Stmt); ok {
-			if _, isBlock := s.(*ast.BlockStmt); !isBlock {
-				best = s
+		stack = append(stack, m)
+		if m == n {
+			for i := len(stack) - 1; i >= 0 && best == nil; i-- {
+				if s, ok := stack[i].(ast.Stmt); ok {
+					if _, isBlock := s.(*ast.BlockStmt); !isBlock {
+						best = s
+					}
+				}
 			}
+			done = true
+			return false
 		}
 		return true
 	})
 	return best
+}
+
+// containsNode: is inner a node of the tree rooted at outer (structural, see enclosingStmt)?
+func containsNode(outer, inner ast.Node) bool {
+	if outer == nil || inner == nil {
+		return false
+	}
+	found := false
+	ast.Inspect(outer, func(m ast.Node) bool {
+		if m == inner {
+			found = true
+		}
+		return !found
+	})
+	return found
+}
+
+// wholeBefore: statement a lies entirely before node b (it starts before b and does not contain it).
+func wholeBefore(a, b ast.Node) bool {
+	return a.Pos() < b.Pos() && !containsNode(a, b)
 }
 
 // usesIdent: does the node mention the object?
